@@ -42,7 +42,16 @@ def strategy(draw, tier="quick"):
     regime = draw(st.sampled_from(["FLOAT", "FLOAT", "BOOL", "QQ"]))
     exact = regime == "QQ"
     g = draw(gen.grammar(regimes=[regime], shape="nonrecursive" if exact else None, max_nt=3, max_rules=6, max_terms=2))
-    t = draw(gen.transducer(regime="QQ" if regime == "FLOAT" else regime, max_states=3, max_arcs=5, acyclic=exact))
+    big = draw(st.integers(0, 11)) == 0  # now and then a transducer with 8-9 states
+    t = draw(gen.transducer(regime="QQ" if regime == "FLOAT" else regime, max_states=9 if big else 3, max_arcs=14 if big else 5, acyclic=exact or big, min_states=8 if big else 1))  # big ones are acyclic: the reference stays cheap
+    if big:
+        # chain the states so that most of them lie on accepting paths
+        states = t["states"]
+        for i in range(len(states) - 1):
+            if not any(a[0] == states[i] and a[3] == states[i + 1] for a in t["arcs"]):
+                lab = draw(st.sampled_from([["a", "a"], ["b", ""], ["", "b"], ["a", "b"], ["b", "a"]]))
+                t["arcs"].append([states[i], lab[0], lab[1], states[i + 1], "1" if regime == "BOOL" else "1/8"])
+        t["big"] = True
     a = draw(gen.automaton(regime="QQ" if regime == "FLOAT" else regime, max_states=3, max_arcs=5, acyclic=exact, pool="str"))
     t["regime"] = a["regime"] = regime
     return {"g": g, "t": t, "a": a, "n": draw(st.integers(0, 2))}
@@ -56,7 +65,7 @@ def check(case, ctx):
     T = RT.from_case(M, ct)
     A = RA.from_case(M, ca)
     clt = gen.classify_automaton(ct)
-    ctx.cls(*gen.classify(g), "regime:" + g["regime"], *("t:" + c for c in clt))
+    ctx.cls(*gen.classify(g), "regime:" + g["regime"], *("t:" + c for c in clt), "t:8+states" if ct.get("big") else None)
     cfg = ctx.call("build", lib_cfg, M, g)
     fst = ctx.call("build", lib_fst, M, ct)
     acc = ctx.call("build", lib_wfsa, M, ca, "base")
